@@ -764,6 +764,8 @@ def count_branches(real, res):
             res.count('branch:pi-with-gt')
         elif e[0] in ('SC', 'EC'):
             res.count('branch:cdata-marker')
+        elif e[0] == 'DT':
+            res.count('branch:doctype-with-gt' if any(x and '>' in x for x in e[1:4]) else 'branch:doctype-plain')
         if e[0] == 'S':
             for nm in [e[1]] + [a for a, _v in e[2]]:
                 t = qtext(nm)
@@ -894,7 +896,7 @@ def exhaustive_shard(arg):
 
 def run(ctx):
     nsh = 16
-    per = ctx.n(2000, 25000)
+    per = ctx.n(2000, 18000)
     res = Result()
     for r in pmap('harness.props.c06', 'shard', [(ctx.seed, i, per) for i in range(nsh)]):
         res.merge(r)
